@@ -134,17 +134,30 @@ func fileExists(ctx context.Context, cops ChangeOps, fullpath string) (bool, err
 }
 
 // canonicalBasename returns the clean spelling of basename relative to outDir, so that every
-// spelling of one file (rc1, ./rc1, sub/../rc1, ../<out_dir>/rc1) names it the same way.
+// spelling of one file (rc1, ./rc1, sub/../rc1, ../<out_dir>/rc1) names it the same way, also when
+// the file is outside outDir (../c/rc1 and ../../a/c/rc1 for the out_dir a/b).
 func canonicalBasename(outDir, basename string) string {
-	dir := path.Join("/", outDir)
+	dir := path.Clean(outDir)
 	full := path.Join(dir, basename)
-	if dir != "/" {
-		dir += "/"
+	if path.IsAbs(dir) != path.IsAbs(full) || full == dir {
+		return path.Clean(basename)
 	}
-	if strings.HasPrefix(full, dir) && full != dir {
-		return strings.TrimPrefix(full, dir)
+	from := strings.Split(strings.TrimPrefix(dir, "/"), "/")
+	if dir == "." || dir == "/" {
+		from = nil
 	}
-	return path.Clean(basename)
+	to := strings.Split(strings.TrimPrefix(full, "/"), "/")
+	common := 0
+	for common < len(from) && common < len(to) && from[common] == to[common] {
+		common++
+	}
+	for _, elem := range from[common:] {
+		if elem == ".." {
+			// The way back from outDir is not known without the name of its parent directory.
+			return path.Clean(basename)
+		}
+	}
+	return strings.Repeat("../", len(from)-common) + strings.Join(to[common:], "/")
 }
 
 // defaultGenerateBasename returns a certificate file name to use for the endorsement request. If the
